@@ -298,7 +298,7 @@ def resolve(o: tuple[Any, ...], model: dict[int, dict[int, list[int] | None]], s
         return bytes([0x3E, 0x80 if o[1] else 0x00])
     if k == "repeat":
         return prev or b"\x3e\x00"
-    if k == "idle":
+    if k in ("idle", "overlap"):
         return b""
     if k == "stalekey_key":
         if last_seed is not None:
